@@ -8,6 +8,22 @@ V = os.path.dirname(os.path.dirname(os.path.abspath(__file__)))
 out = []
 for f in sorted(glob.glob(os.path.join(V, 'findings_*.json'))):
     out.extend(json.load(open(f)))
+# commit ids recorded by a layer builder refer to its own branch: map them to the cherry-picked commit on /repo's main
+import subprocess
+def _git(*a):
+    return subprocess.run(['git', '-C', '/repo'] + list(a), stdout=subprocess.PIPE, stderr=subprocess.DEVNULL).stdout.decode()
+main = {}
+for line in _git('log', '--format=%H %s', 'main').splitlines():
+    h, subj = line.split(' ', 1)
+    main.setdefault(subj, h)
+for r in out:
+    c = r.get('commit')
+    if c:
+        subj = _git('log', '-1', '--format=%s', c).strip()
+        if subj in main:
+            r['commit'] = main[subj]
+        elif c not in main.values():
+            print('WARNING: commit', c, 'of', r['property'], 'is not on main:', subj)
 out.sort(key=lambda r: (r['property'], r.get('status', ''), json.dumps(r.get('signature', {}), sort_keys=True)))
 json.dump(out, open(os.path.join(V, 'known_findings.json'), 'w'), indent=1)
 print(len(out), 'records:', ', '.join(f"{r['property']}:{r['status']}" for r in out))
